@@ -2314,19 +2314,19 @@ def fam_C11(rng, tier):
         s.live_ops.pop(o, None)
     s.feed(m.ack('puback', p0))
     out.append(s.script())
-    # the same window filled with what takes NO identifier (QoS 0 publishes, pings): 65 534 of them while one operation is
+    # the same window filled with what takes NO identifier (QoS 0 publishes, then pings): 65 534 publishes while one operation is
     # outstanding, then a second identifier-taking operation (round 10, C11-j: every publish() consumed a counter value)
     s = Sess('c11-qos0-fill')
     s.connect()
     s.add('CLONE h0 h1')
     o0, p0 = s.publish(1)
     for i in range(65534):
-        if i % 64 == 63:
-            o = s.ping(1)
-            s.feed(m.pingresp())
-        else:
-            o, p = s.publish(0, i % 2)
-        s.live_ops.pop(o if isinstance(o, int) else o[0], None)
+        o, p = s.publish(0, i % 2)
+        s.live_ops.pop(o, None)
+    for _ in range(3):
+        o = s.ping(1)
+        s.feed(m.pingresp())
+        s.live_ops.pop(o, None)
     o1, p1 = s.publish(1, 1)
     s.feed(m.ack('puback', p1))
     s.feed(m.ack('puback', p0))
